@@ -178,12 +178,130 @@ fn signature(_e: &Expression, _s: &Expression) -> String {
     "c12:value-changed".to_string()
 }
 
+/// Rule-directed shapes: every left-hand side the simplifier documents, in every orientation of
+/// its operands, over small random atoms (so that shared factors / equal operands actually occur),
+/// optionally wrapped in one more operator.
+fn template(src: &mut Src, cfg: &ExprCfg) -> Expression {
+    use quil_rs::expression::InfixOperator::*;
+    let small = ExprCfg { max_depth: 1, share_pct: 0, ..*cfg };
+    let mut atom = |src: &mut Src| if src.chance(1, 4) { gx::expr(src, &small) } else { gx::leaf(src, &small) };
+    let x = atom(src);
+    let (a, b, c, d) = (atom(src), atom(src), atom(src), atom(src));
+    let neg = |e: Expression| gx::prefix(PrefixOperator::Minus, e);
+    let mul2 = |src: &mut Src, l: &Expression, r: &Expression| if src.chance(1, 2) { gx::infix(l.clone(), Star, r.clone()) } else { gx::infix(r.clone(), Star, l.clone()) };
+    let ops = [Plus, Minus, Star, Slash, Caret];
+    let e = match src.below(16) {
+        0 => {
+            // (a1*x + b1) + (a2*x + b2), all four factor orientations
+            let p1 = mul2(src, &a, &x);
+            let p2 = mul2(src, &c, &x);
+            gx::infix(gx::infix(p1, Plus, b.clone()), Plus, gx::infix(p2, Plus, d.clone()))
+        }
+        1 => {
+            let p1 = mul2(src, &a, &x);
+            let p2 = mul2(src, &c, &x);
+            gx::infix(p1, Plus, p2)
+        }
+        2 => gx::infix(gx::infix(x.clone(), Plus, b.clone()), Plus, gx::infix(x.clone(), Plus, d.clone())),
+        3 => {
+            // a op (b op2 c)
+            let (o1, o2) = (*src.pick(&ops), *src.pick(&ops));
+            gx::infix(a.clone(), o1, gx::infix(b.clone(), o2, c.clone()))
+        }
+        4 => {
+            let (o1, o2) = (*src.pick(&ops), *src.pick(&ops));
+            gx::infix(gx::infix(a.clone(), o2, b.clone()), o1, c.clone())
+        }
+        5 => {
+            // cancellations with a shared operand in every position
+            let inner = mul2(src, &a, &b);
+            match src.below(4) {
+                0 => gx::infix(inner, Slash, a.clone()),
+                1 => gx::infix(a.clone(), Slash, inner),
+                2 => gx::infix(gx::infix(b.clone(), Slash, a.clone()), Star, a.clone()),
+                _ => gx::infix(a.clone(), Star, gx::infix(b.clone(), Slash, a.clone())),
+            }
+        }
+        6 => {
+            let o = *src.pick(&ops);
+            match src.below(3) {
+                0 => gx::infix(a.clone(), o, neg(b.clone())),
+                1 => gx::infix(neg(a.clone()), o, b.clone()),
+                _ => gx::infix(neg(a.clone()), o, neg(b.clone())),
+            }
+        }
+        7 => {
+            if src.chance(1, 2) {
+                gx::infix(neg(a.clone()), Slash, a.clone())
+            } else {
+                gx::infix(a.clone(), Slash, neg(a.clone()))
+            }
+        }
+        8 => {
+            let o = *src.pick(&ops);
+            gx::infix(a.clone(), o, a.clone())
+        }
+        9 => {
+            // identities with 0 and 1 on either side
+            let k = gx::num(if src.chance(1, 2) { 0.0 } else { 1.0 }, 0.0);
+            let o = *src.pick(&ops);
+            if src.chance(1, 2) {
+                gx::infix(a.clone(), o, k)
+            } else {
+                gx::infix(k, o, a.clone())
+            }
+        }
+        10 => {
+            // distribution
+            if src.chance(1, 2) {
+                gx::infix(a.clone(), Star, gx::infix(b.clone(), Plus, c.clone()))
+            } else {
+                gx::infix(gx::infix(a.clone(), Plus, b.clone()), Star, c.clone())
+            }
+        }
+        11 => {
+            // mul inside div / div inside mul without cancellation
+            match src.below(4) {
+                0 => gx::infix(gx::infix(a.clone(), Star, b.clone()), Slash, c.clone()),
+                1 => gx::infix(a.clone(), Slash, gx::infix(b.clone(), Star, c.clone())),
+                2 => gx::infix(gx::infix(a.clone(), Slash, b.clone()), Star, c.clone()),
+                _ => gx::infix(a.clone(), Star, gx::infix(b.clone(), Slash, c.clone())),
+            }
+        }
+        12 => neg(neg(a.clone())),
+        13 => {
+            let f = *src.pick(&gx::FUNCTIONS);
+            gx::call(f, gx::infix(a.clone(), *src.pick(&ops), b.clone()))
+        }
+        14 => {
+            // (-a - b), a - (-b), a + (-b), (-a) + b
+            match src.below(4) {
+                0 => gx::infix(neg(a.clone()), Minus, b.clone()),
+                1 => gx::infix(a.clone(), Minus, neg(b.clone())),
+                2 => gx::infix(a.clone(), Plus, neg(b.clone())),
+                _ => gx::infix(neg(a.clone()), Plus, b.clone()),
+            }
+        }
+        _ => {
+            // two-level nesting of the same operator on both sides
+            let o = *src.pick(&[Plus, Minus, Star, Slash]);
+            gx::infix(gx::infix(a.clone(), o, b.clone()), o, gx::infix(c.clone(), o, d.clone()))
+        }
+    };
+    // optional context
+    match src.below(4) {
+        0 => gx::infix(e, *src.pick(&ops), atom(src)),
+        1 => gx::infix(atom(src), *src.pick(&ops), e),
+        _ => e,
+    }
+}
+
 impl Property for C12Prop {
     fn id(&self) -> &'static str {
         "C12"
     }
     fn rule(&self) -> &'static str {
-        "random expression trees of depth <= 4 (quick) / <= 6 (thorough) over numbers {0, k/2^j, reals and complex with |re|,|im| in [0.25,4]}, pi, variables {x,y,z}, memory {a[0..1], b[0..1]}, 5 functions, prefix +/-, 5 infix operators, with 30% reuse of earlier subtrees; compared at 3 fixed generic assignments after finite / branch-cut / zero-base / conditioning screens. Non-trivial = simplified form differs structurally from the input and the input mentions a variable or memory reference; distinct by structural hash of the input."
+        "random expression trees of depth <= 4 (quick) / <= 6 (thorough) (half of the cases; the other half are rule-directed templates: every documented left-hand side of the simplifier in every operand orientation over small random atoms, optionally wrapped in one more operator) over numbers {0, k/2^j, reals and complex with |re|,|im| in [0.25,4]}, pi, variables {x,y,z}, memory {a[0..1], b[0..1]}, 5 functions, prefix +/-, 5 infix operators, with 30% reuse of earlier subtrees; compared at 3 fixed generic assignments after finite / branch-cut / zero-base / conditioning screens. Non-trivial = simplified form differs structurally from the input and the input mentions a variable or memory reference; distinct by structural hash of the input."
     }
     fn assumptions(&self) -> Vec<&'static str> {
         vec![
@@ -210,7 +328,12 @@ impl Property for C12Prop {
             allow_variables: true,
             complex_numbers: true,
         };
-        let e = gx::expr(src, &cfg);
+        let e = if src.chance(1, 2) {
+            out.class("template");
+            template(src, &cfg)
+        } else {
+            gx::expr(src, &cfg)
+        };
         out.key = gx::structural_hash(&e);
         classify(&e, out);
         if ctx.render {
